@@ -29,15 +29,89 @@ def run_case(md, c):
     traj = md.Trajectory(xyz, top)
     kw = {}
     if c.get("sel") is not None:
-        kw["atom_indices"] = list(c["sel"]) if not c.get("sel_as_array") else np.array(c["sel"], dtype=int)
+        form = c.get("sel_form") or ("ndarray" if c.get("sel_as_array") else "list")
+        n_atoms = len(c["elems"])
+        if form == "list":
+            kw["atom_indices"] = list(c["sel"])
+        elif form == "ndarray":
+            kw["atom_indices"] = np.array(c["sel"], dtype=int)
+        elif form == "int64":
+            kw["atom_indices"] = [np.int64(i) for i in c["sel"]]
+        elif form == "tuple":
+            kw["atom_indices"] = tuple(c["sel"])
+        elif form == "bool":
+            kw["atom_indices"] = [i in set(c["sel"]) for i in range(n_atoms)]
+        elif form == "boolarray":
+            kw["atom_indices"] = np.array([i in set(c["sel"]) for i in range(n_atoms)], dtype=bool)
+        else:
+            raise ValueError("unknown sel_form %r" % form)
+    if c.get("get_mapping"):
+        kw["get_mapping"] = True
     if c.get("change") is not None:
         kw["change_radii"] = dict(c["change"])
     try:
         out = md.shrake_rupley(traj, probe_radius=c["probe"], n_sphere_points=c["nsp"], mode=c["mode"], **kw)
     except (ValueError, KeyError, IndexError, TypeError) as e:
         return {"err": type(e).__name__, "msg": str(e)[:200]}
+    if c.get("get_mapping"):
+        out, mapping = out
+        return {"rows": [[float(v) for v in row] for row in np.asarray(out)], "mapping": [int(v) for v in mapping]}
     out = np.asarray(out)
     return {"rows": [[float(v) for v in row] for row in out], "dtype": str(out.dtype)}
+
+
+def run_history(md, c):
+    """Several calls on ONE Topology object (and trajectories sharing it) with in-place edits in between.
+    c: {"elems","resid","nres","xyz","grid","steps":[...]}; a step is
+       {"op":"call","probe","nsp","mode","change","sel","view"}   view: "traj" | "slice_shared" (traj.slice(..., copy=False)) | "new_traj" (new Trajectory, same topology)
+       {"op":"set_element","atom":i,"sym":s} | {"op":"move_atom","atom":i,"res":r} | {"op":"rename","atom":i,"name":str}
+       {"op":"add_atom","sym":s,"res":r,"xyz":[[X,Y,Z] per frame]} | {"op":"delete_atom","atom":i}
+    returns {"calls": [result of every call step, in order]}"""
+    from mdtraj.core import element as E
+    top = build_top(md, c["elems"], c["resid"], c["nres"])
+    xyz = (np.array(c["xyz"], dtype=np.int64).astype(np.float64) / float(2 ** c["grid"])).astype(np.float32)
+    traj = md.Trajectory(xyz, top)
+    calls = []
+    for st in c["steps"]:
+        op = st["op"]
+        if op == "call":
+            kw = {}
+            if st.get("sel") is not None:
+                kw["atom_indices"] = list(st["sel"])
+            if st.get("change") is not None:
+                kw["change_radii"] = dict(st["change"])
+            view = st.get("view", "traj")
+            if view == "slice_shared":
+                t = traj.slice(list(range(traj.n_frames)), copy=False)
+            elif view == "new_traj":
+                t = md.Trajectory(np.array(traj.xyz, copy=True), traj.topology)
+            else:
+                t = traj
+            try:
+                out = md.shrake_rupley(t, probe_radius=st["probe"], n_sphere_points=st["nsp"], mode=st["mode"], **kw)
+                calls.append({"rows": [[float(v) for v in row] for row in np.asarray(out)], "same_topology_object": t.topology is top})
+            except (ValueError, KeyError, IndexError, TypeError) as e:
+                calls.append({"err": type(e).__name__, "msg": str(e)[:200]})
+        elif op == "set_element":
+            top.atom(st["atom"]).element = E.Element.getBySymbol(st["sym"])
+        elif op == "rename":
+            top.atom(st["atom"]).name = st["name"]
+        elif op == "move_atom":
+            a = top.atom(st["atom"])
+            a.residue._atoms.remove(a)
+            new = top.residue(st["res"])
+            new._atoms.append(a)
+            a.residue = new
+        elif op == "add_atom":
+            top.add_atom("%sX" % st["sym"], E.Element.getBySymbol(st["sym"]), top.residue(st["res"]))
+            extra = (np.array(st["xyz"], dtype=np.int64).astype(np.float64) / float(2 ** c["grid"])).astype(np.float32)
+            traj = md.Trajectory(np.concatenate([traj.xyz, extra[:, None, :]], axis=1), top)
+        elif op == "delete_atom":
+            top.delete_atom_by_index(st["atom"])
+            traj = md.Trajectory(np.delete(traj.xyz, st["atom"], axis=1), top)
+        else:
+            raise ValueError("unknown history op %r" % op)
+    return {"calls": calls}
 
 
 def main():
@@ -45,7 +119,7 @@ def main():
     import mdtraj as md
     from mdtraj.geometry import sasa as S
     from mdtraj.core import element as E
-    res = [run_case(md, c) for c in payload["cases"]]
+    res = [run_history(md, c) if c.get("steps") is not None else run_case(md, c) for c in payload["cases"]]
     symbols = sorted({e.symbol for e in E.Element._elements_by_symbol.values()})
     print(json.dumps({"out": res, "radii_table": dict(S._ATOMIC_RADII), "symbols": symbols}))
 
